@@ -84,6 +84,15 @@ Theorem C02_all_methods_bracketed :
   forallb (fun p => atomic_shape (snd p)) shapes = true.
 Proof. exact all_methods_bracketed. Qed.
 
+(** Static obligation over the regenerated list of places, in the non-test code of the wallet
+    backend (lib.rs, wallet.rs, wallet/*.rs, pool_migration/*.rs), where the Result of an
+    expression that touches the database is discarded (`if let Err/Ok`, `let _ =`, `.ok()`,
+    `.unwrap_or*`, a `match` arm `Err(..)` producing no error): every such place has been
+    inspected by hand (the flag is bound to a hash of the expression text). *)
+Theorem C02_no_discarded_db_result :
+  forallb (fun p : string * bool => snd p) swallows = true.
+Proof. exact no_discarded_db_result. Qed.
+
 (** Bridge: on a case in the theorems' domain whose observed digests agree with what the
     reference semantics predicts on the observed trace ([run_case]), a disciplined trace
     implies that every digest observed during or after the call — through the second
